@@ -239,6 +239,9 @@ class Realizer:
                 empty = False
                 ann = f"InitVar[{e}]" if f.initvar else e
                 md = self.field_metadata(f)
+                if f.alias_annotated and md and md[0].startswith("alias("):
+                    ann = f"Annotated[{ann}, {md[0]}]"
+                    md = md[1:]
                 args = []
                 if f.has_default:
                     args.append(f"default={f.default}")
